@@ -590,6 +590,104 @@ def run(ctx: Any, prog: Program) -> None:
                           'directory lists a file whose bytes are not in the archive yet (a reopened VPK reads it back short)', func=q16, text=f'{q16}: `{U(c16)[:40]}` closed where it was opened')
     ctx.shape('C13.Z16', n16 >= 2, vpk, vpk.tree, f'{n16} opens for writing found in vpk.py (FileInfo.write and write_dirfile confirmed by hand)', text='opens for writing')
 
+    # ---- Z17: mode 'w' never reads the old directory ----------------------------------------------------------------------------------
+    # Opening in WRITE mode starts from an empty archive ("reopening lists exactly the files that should exist"): load_dirfile must not reach
+    # its read of the existing directory file when self.mode is OpenModes.WRITE.  The set of modes that can reach the read-open is computed
+    # from the tests on self.mode along the way (is / is not / == / in / .writable, early returns and raises, single-assignment locals).
+    ctx.rule('C13.Z17', 'load_dirfile never reads the existing directory file in WRITE mode (the old contents are ignored)', floor=1)
+    om17 = vpk.cls('OpenModes')
+    members17 = {t.id: a.value.value for a in om17.body if isinstance(a, ast.Assign) and isinstance(a.value, ast.Constant) for t in a.targets if isinstance(t, ast.Name)}
+    wr17 = next((f for f in om17.body if isinstance(f, ast.FunctionDef) and f.name == 'writable'), None)
+    writable17: Optional[Set[str]] = None
+    if wr17 is not None:
+        rets = [r for r in ast.walk(wr17) if isinstance(r, ast.Return)]
+        if len(rets) == 1 and isinstance(rets[0].value, ast.Compare) and dotted(rets[0].value.left) == 'self.value' and isinstance(rets[0].value.ops[0], ast.In) and isinstance(rets[0].value.comparators[0], ast.Constant):
+            writable17 = {k for k, v in members17.items() if isinstance(v, str) and v in rets[0].value.comparators[0].value}
+    ctx.shape('C13.Z17', 'WRITE' in members17 and writable17 is not None, vpk, om17, 'OpenModes: members and the `writable` property (value in a constant string) not recognised', text='OpenModes table')
+    ld17 = vpk.methods('VPK').get('load_dirfile')
+    if ld17 is None:
+        raise AnalysisError('anchor vanished: VPK.load_dirfile')
+    loc17: Dict[str, List[ast.AST]] = {}
+    for a in walk_no_nested(ld17):
+        if isinstance(a, ast.Assign):
+            for t in a.targets:
+                if isinstance(t, ast.Name):
+                    loc17.setdefault(t.id, []).append(a.value)
+    ALL17 = set(members17)
+    def _mem17(e: ast.AST) -> Optional[str]:
+        d = dotted(e) or ''
+        return d.split('.')[-1] if d.startswith('OpenModes.') and d.split('.')[-1] in members17 else None
+    def narrow17(t: ast.AST, pol: bool, depth: int = 0) -> Optional[Set[str]]:
+        """Modes for which `t` evaluates to `pol`; None: a test on the mode that is not understood."""
+        if isinstance(t, ast.UnaryOp) and isinstance(t.op, ast.Not):
+            return narrow17(t.operand, not pol, depth)
+        if isinstance(t, ast.BoolOp):
+            parts = [narrow17(v, pol, depth) for v in t.values]
+            if any(p_ is None for p_ in parts):
+                return None
+            conj = isinstance(t.op, ast.And) == pol
+            out = set(ALL17) if conj else set()
+            for p_ in parts:
+                out = (out & p_) if conj else (out | p_)      # type: ignore[operator]
+            return out
+        if isinstance(t, ast.Compare) and len(t.ops) == 1 and dotted(t.left) == 'self.mode':
+            op, rhs = t.ops[0], t.comparators[0]
+            if isinstance(op, (ast.Is, ast.Eq, ast.IsNot, ast.NotEq)) and _mem17(rhs):
+                pos = {_mem17(rhs)}
+                return pos if isinstance(op, (ast.Is, ast.Eq)) == pol else ALL17 - pos      # type: ignore[return-value]
+            if isinstance(op, (ast.In, ast.NotIn)) and isinstance(rhs, (ast.Tuple, ast.List, ast.Set)) and all(_mem17(e) for e in rhs.elts):
+                pos = {_mem17(e) for e in rhs.elts}
+                return pos if isinstance(op, ast.In) == pol else ALL17 - pos      # type: ignore[return-value]
+            return None
+        if dotted(t) == 'self.mode.writable' and writable17 is not None:
+            return set(writable17) if pol else ALL17 - writable17
+        if isinstance(t, ast.Name) and len(loc17.get(t.id, [])) == 1 and depth < 3:
+            return narrow17(loc17[t.id][0], pol, depth + 1)
+        if any(isinstance(x, ast.Attribute) and x.attr == 'mode' for x in ast.walk(t)) or (isinstance(t, ast.Name) and any('mode' in U(v) for v in loc17.get(t.id, []))):
+            return None
+        return set(ALL17)
+    def _terminates17(block: List[ast.stmt]) -> bool:
+        return bool(block) and isinstance(block[-1], (ast.Return, ast.Raise))
+    n17 = 0
+    for c17 in walk_no_nested(ld17):
+        if not (isinstance(c17, ast.Call) and dotted(c17.func) in ('open', 'io.open') and c17.args and dotted(c17.args[0]) == 'self.path'):
+            continue
+        md = c17.args[1].value if len(c17.args) > 1 and isinstance(c17.args[1], ast.Constant) else next((k.value.value for k in c17.keywords if k.arg == 'mode' and isinstance(k.value, ast.Constant)), 'r')
+        if not isinstance(md, str) or any(ch in md for ch in 'wax+'):
+            continue
+        n17 += 1
+        modes = set(ALL17)
+        unknown = None
+        child: ast.AST = c17
+        par = vpk.parents.get(child)
+        while par is not None and child is not ld17:
+            for fld in ('body', 'orelse', 'finalbody', 'handlers'):
+                blk = getattr(par, fld, None)
+                if isinstance(blk, list) and child in blk:
+                    if isinstance(par, ast.If) and fld in ('body', 'orelse'):
+                        nr = narrow17(par.test, fld == 'body')
+                        if nr is None:
+                            unknown = par.test
+                        else:
+                            modes &= nr
+                    for st in blk[:blk.index(child)]:
+                        if isinstance(st, ast.If):
+                            for blk2, pol in ((st.body, False), (st.orelse, True)):
+                                if _terminates17(blk2):
+                                    nr = narrow17(st.test, pol)
+                                    if nr is None:
+                                        unknown = st.test
+                                    else:
+                                        modes &= nr
+            child, par = par, vpk.parents.get(par)
+        if unknown is not None and 'WRITE' in modes:
+            ctx.shape('C13.Z17', False, vpk, unknown, f'load_dirfile: the test `{U(unknown)[:60]}` on the open mode was not understood', func='VPK.load_dirfile', text='read of the old directory excluded in WRITE mode')
+            continue
+        ctx.check('C13.Z17', 'WRITE' not in modes, vpk, c17, f'VPK.load_dirfile reaches `{U(c17)[:40]}` in modes {sorted(modes)}: a VPK opened with mode "w" over an existing archive reads the old directory '
+                  'instead of starting empty, so files that were never added to it are listed (and written back) after write_dirfile()', func='VPK.load_dirfile', text='read of the old directory excluded in WRITE mode')
+    if n17 < 1:
+        raise AnalysisError('Z17: VPK.load_dirfile no longer opens self.path for reading: anchor vanished')
+
     # ---- Z15: file data in a numbered archive is read at the offset recorded for it ---------------------------------------------------------
     # Overwrites and removals leave dead blocks in the numbered archives and new data is appended, so the live blocks are neither contiguous
     # nor in directory order: a read of `<entry>.arch_len` bytes is right only directly after `seek(<entry>.offset)` on the same file object.
@@ -708,6 +806,7 @@ def run(ctx: Any, prog: Program) -> None:
         ctx.shape('C13.Z6', False, vpk, w, 'preload slice bound not recognised', func='FileInfo.write', text='preload bounded to 16 bits')
 
 MUTANTS = [
+    {'id': 'write_mode_reads_old_directory', 'file': 'vpk.py', 'find': "        if self.mode is OpenModes.WRITE:\n            # Erase the directory file, we ignore current contents.", 'replace': "        if self.mode is OpenModes.WRITE and not os.path.exists(self.path):\n            # Erase the directory file, we ignore current contents.", 'expect': 'C13.Z17', 'refuse_ok': True, 'note': 'round 11'},
     {'id': 'verify_reads_without_seek', 'file': 'vpk.py', 'find': "                    data.seek(self.offset)\n                    chk = checksum(", 'replace': "                    chk = checksum(", 'expect': 'C13.Z15'},
     {'id': 'file_parts_lstrip_dot_slash', 'file': 'vpk.py', 'find': "    path = os.path.normpath(path).replace('\\\\', '/').rstrip('/')\n", 'replace': "    path = os.path.normpath(path).replace('\\\\', '/').lstrip('./').rstrip('/')\n", 'expect': 'C13.Z12'},
     {'id': 'new_file_lowercases_extension', 'file': 'vpk.py', 'find': "        path, name, ext = _get_file_parts(filename, root)\n", 'replace': "        path, name, ext = _get_file_parts(filename, root)\n        ext = ext.lower()\n", 'expect': 'C13.Z4'},
